@@ -417,7 +417,7 @@ reg("C06",
     H("c06", "c06_tag_supported_versions_len1", timeout=900, mem=12, bounds="single-purpose extension parser, type/declared length concrete, content + appended byte symbolic", funcs=["tag_supported_versions_len1"]),
     H("c06", "c06_tag_cookie_len2", timeout=900, mem=12, bounds="single-purpose extension parser, type/declared length concrete, content + appended byte symbolic", funcs=["tag_cookie_len2"]),
     # pointer provenance (is_sub / span_is assertions) of the differential families, same bounds as there
-    *_pick("C02", ["c02_raw_small", "c02_encrypted_small", "c02_plaintext_wiring"]),
+    *_pick("C02", ["c02_raw_small", "c02_raw_cap", "c02_encrypted_small", "c02_plaintext_wiring"]),
     *_pick("C04", ["c04_certificate", "c04_certificate_status", "c04_next_protocol", "c04_e2e_certificate_status_5", "c04_e2e_next_protocol_4", "c04_dispatch_wiring"]),
     *_pick("C05", ["c05_dispatch_generic", "c05_content_sni_8", "c05_content_esni_12", "c05_list_generic"]),
     *_pick("C10", ["c10_hs_serverdone", "c10_hs_hello_verify_request"]),
@@ -439,12 +439,29 @@ reg("C01",
     H("c01", "c01_heap_certificate_chain", c01=True, timeout=900, mem=12, bounds="all Kani default checks; symbolic input (see harness)", funcs=["heap_certificate_chain"]),
     H("c01", "c01_fmt_display_only", c01=True, timeout=900, mem=12, bounds="all Kani default checks; symbolic input (see harness)", funcs=["fmt_display_only"]),
     H("c01", "c01_debug_record_header_alert_signed", c01=True, timeout=900, mem=12, bounds="all Kani default checks; symbolic input (see harness)", funcs=["debug_record_header_alert_signed"]),
-    H("c01", "c01_debug_extension_small", c01=True, timeout=900, mem=12, bounds="all Kani default checks; symbolic input (see harness)", funcs=["debug_extension_small"]),
     H("c01", "c01_fmt_u8_a", c01=True, timeout=900, mem=12, bounds="all Kani default checks; symbolic input (see harness)", funcs=["fmt_u8_a"]),
     H("c01", "c01_fmt_u8_b", c01=True, timeout=900, mem=12, bounds="all Kani default checks; symbolic input (see harness)", funcs=["fmt_u8_b"]),
     H("c01", "c01_fmt_u8_c", c01=True, timeout=900, mem=12, bounds="all Kani default checks; symbolic input (see harness)", funcs=["fmt_u8_c"]),
     H("c01", "c01_fmt_u16_a", c01=True, timeout=900, mem=12, bounds="all Kani default checks; symbolic input (see harness)", funcs=["fmt_u16_a"]),
     H("c01", "c01_fmt_u16_b", c01=True, timeout=900, mem=12, bounds="all Kani default checks; symbolic input (see harness)", funcs=["fmt_u16_b"]),
+    H("c01", "c01_debug_ext_pre_shared_key", c01=True, tier="quick", timeout=900, mem=12, bounds="Debug formatting of a value with 2-byte symbolic slices and symbolic scalars", funcs=["<ext_pre_shared_key as Debug>::fmt"]),
+    H("c01", "c01_debug_ext_key_share_old", c01=True, tier="quick", timeout=900, mem=12, bounds="Debug formatting of a value with 2-byte symbolic slices and symbolic scalars", funcs=["<ext_key_share_old as Debug>::fmt"]),
+    H("c01", "c01_debug_ext_cookie", c01=True, tier="quick", timeout=900, mem=12, bounds="Debug formatting of a value with 2-byte symbolic slices and symbolic scalars", funcs=["<ext_cookie as Debug>::fmt"]),
+    H("c01", "c01_debug_ext_session_ticket", c01=True, tier="quick", timeout=900, mem=12, bounds="Debug formatting of a value with 2-byte symbolic slices and symbolic scalars", funcs=["<ext_session_ticket as Debug>::fmt"]),
+    H("c01", "c01_debug_ext_padding", c01=True, tier="quick", timeout=900, mem=12, bounds="Debug formatting of a value with 2-byte symbolic slices and symbolic scalars", funcs=["<ext_padding as Debug>::fmt"]),
+    H("c01", "c01_debug_ext_renegotiation_info", c01=True, tier="quick", timeout=900, mem=12, bounds="Debug formatting of a value with 2-byte symbolic slices and symbolic scalars", funcs=["<ext_renegotiation_info as Debug>::fmt"]),
+    H("c01", "c01_debug_ext_ec_point_formats", c01=True, tier="thorough", timeout=900, mem=12, bounds="Debug formatting of a value with 2-byte symbolic slices and symbolic scalars", funcs=["<ext_ec_point_formats as Debug>::fmt"]),
+    H("c01", "c01_debug_ext_status_request", c01=True, tier="thorough", timeout=900, mem=12, bounds="Debug formatting of a value with 2-byte symbolic slices and symbolic scalars", funcs=["<ext_status_request as Debug>::fmt"]),
+    H("c01", "c01_debug_ext_sct", c01=True, tier="thorough", timeout=900, mem=12, bounds="Debug formatting of a value with 2-byte symbolic slices and symbolic scalars", funcs=["<ext_sct as Debug>::fmt"]),
+    H("c01", "c01_debug_ext_unknown", c01=True, tier="thorough", timeout=900, mem=12, bounds="Debug formatting of a value with 2-byte symbolic slices and symbolic scalars", funcs=["<ext_unknown as Debug>::fmt"]),
+    H("c01", "c01_debug_ext_esni", c01=True, tier="thorough", timeout=900, mem=12, bounds="Debug formatting of a value with 2-byte symbolic slices and symbolic scalars", funcs=["<ext_esni as Debug>::fmt"]),
+    H("c01", "c01_debug_server_hello", c01=True, tier="thorough", timeout=900, mem=12, bounds="Debug formatting of a value with 2-byte symbolic slices and symbolic scalars", funcs=["<server_hello as Debug>::fmt"]),
+    H("c01", "c01_debug_new_session_ticket", c01=True, tier="thorough", timeout=900, mem=12, bounds="Debug formatting of a value with 2-byte symbolic slices and symbolic scalars", funcs=["<new_session_ticket as Debug>::fmt"]),
+    H("c01", "c01_debug_raw_certificate", c01=True, tier="thorough", timeout=900, mem=12, bounds="Debug formatting of a value with 2-byte symbolic slices and symbolic scalars", funcs=["<raw_certificate as Debug>::fmt"]),
+    H("c01", "c01_debug_client_key_exchange", c01=True, tier="thorough", timeout=900, mem=12, bounds="Debug formatting of a value with 2-byte symbolic slices and symbolic scalars", funcs=["<client_key_exchange as Debug>::fmt"]),
+    H("c01", "c01_debug_digitally_signed", c01=True, tier="thorough", timeout=900, mem=12, bounds="Debug formatting of a value with 2-byte symbolic slices and symbolic scalars", funcs=["<digitally_signed as Debug>::fmt"]),
+    H("c01", "c01_debug_dh_params", c01=True, tier="thorough", timeout=900, mem=12, bounds="Debug formatting of a value with 2-byte symbolic slices and symbolic scalars", funcs=["<dh_params as Debug>::fmt"]),
+    H("c01", "c01_debug_heartbeat", c01=True, tier="thorough", timeout=900, mem=12, bounds="Debug formatting of a value with 2-byte symbolic slices and symbolic scalars", funcs=["<heartbeat as Debug>::fmt"]),
     # every differential harness runs with all Kani default checks; for C01 an unwinding-assertion failure is a violation too.
     # quick tier: the cheaper half; thorough tier: all of them.
     *_pick("C02", ["c02_raw_small", "c02_plaintext_wiring", "c02_plaintext_heartbeat_3"], c01=True),
